@@ -19,7 +19,8 @@ CLAIMED = {
             "interleavings of every pair of calls.",
             "Trusts: Coq kernel; extraction (ExtrOcamlBasic only) + OCaml driver; rt/rt.c and gcc's TSan "
             "instrumentation as the source of access events; SC interleaving (x86 locked RMW; weak CAS = strong); "
-            "-O0 build of the header; counters below 2^64.",
+            "-O0 build of the header; counters below 2^64 (cases whose real counters cross 2^16/2^31/2^32/2^33 are run with debiased "
+            "values against the model started at the congruent small value: ring_shift_invariant proves the model is shift-invariant).",
             "DESIGN.md 6 C16"),
     "C18": ("Coq inductive invariant + ticket/acquisition history over an access-granularity model; lock-step trace correspondence",
             "Machine-checked theorems over every reachable state of an executable model of src/fiber_spinlock.c (one step per "
@@ -37,7 +38,8 @@ CLAIMED = {
             "when every announced item was handed out, an announced item always has a designated worker, only the worker pops. Tied to "
             "/repo's working tree on every run by per-access trace comparison of the instrumented work_queue.c with the extracted model.",
             "Trusts: Coq kernel; extraction + OCaml driver; rt/rt.c + gcc TSan instrumentation; SC interleaving; -O0 build; callers follow "
-            "the documented protocol (encoded in the thread programs); pushed items distinct and not the stub; counters below 2^63.",
+            "the documented protocol (encoded in the thread programs); pushed items distinct and not the stub; counters below 2^63 (a fast-forward step of model, proofs and harness takes both counters "
+            "past 2^32 inside one working session).",
             "DESIGN.md 6 C17"),
     "C02": ("Coq invariants + ghost histories over three layered models (Chase-Lev deque SC + x86-TSO, scheduler, runtime protocol "
             "machine); lock-step trace correspondence (deque, scheduler) and trace acceptance by the extracted protocol machine (whole runtime)",
@@ -49,9 +51,11 @@ CLAIMED = {
             "Runtime layer (when Properties_C01.v is present): a fiber is never queued twice per wake-up in the protocol machine. Tie: "
             "per-access lock-step for the deque and the scheduler sources; for the whole runtime, the protocol events of real executions "
             "under a deterministic scheduler are accepted by the extracted machine and checked by a conservation monitor (every schedule "
-            "followed by exactly one hand-out, nothing queued when all kernel threads idle).",
+            "followed by exactly one hand-out, nothing queued when all kernel threads idle, a run queue pushed/popped only by its owner). "
+            "Beyond the model's sizes: long-queue cases (up to 9000 entries queued, owner stalled inside pop while thieves drain) and x86-TSO "
+            "store-buffer runs of the real deque code (thorough tier and post-failure search), judged by the exactly-once/no-loss oracle.",
             "Trusts: Coq kernel; extraction + driver; rt/ runtimes and the guarded event hooks; SC interleaving for the lock-step (the "
-            "TSO model is proved but not trace-tied); layering assumptions listed in evidence.assumptions; evidence.coverage."
+            "TSO model is proved; the TSO runs of the real code are a search, not a trace tie); layering assumptions listed in evidence.assumptions; evidence.coverage."
             "theorem_layers_included says which theorem files this run covered.",
             "DESIGN.md 6 C02"),
     "C06": ("Coq invariant + ghost counters over the T1K stack-machine model with client Sem.v; lock-step trace correspondence on the T1 machine",
@@ -70,7 +74,8 @@ CLAIMED = {
             "when empty or the oldest push has not linked, the returned node is unreachable from the queue, the relaxed queue reports NULL only after "
             "a NULL visit of every sub-queue. Tied to /repo on every run by per-access trace comparison of the three headers with the extracted models.",
             "Trusts: Coq kernel; extraction + driver; rt/rt.c + gcc TSan instrumentation; SC interleaving (the plain volatile accesses of mpsc_fifo are a "
-            "formal C11 race outside the model); -O0 build; single-consumer discipline; round-robin counter below 2^64.",
+            "formal C11 race outside the model); -O0 build; single-consumer discipline; round-robin counter below 2^64 (cases whose real cursor crosses 2^16/2^31/2^32 run with a debiased "
+            "cursor against the model started at 0).",
             "DESIGN.md 6 C15"),
     "C20": ("Coq invariants + sequential-replay histories over access-granularity models of the four double-word-CAS structures; lock-step trace "
             "correspondence through the guarded DCAS hook",
@@ -102,7 +107,9 @@ CLAIMED = {
             "to 64 bits; with the timer read under the sleep lock a sleeper is never woken before its deadline and no wake-up is lost; each sleeper is "
             "scheduled exactly once when the chain walk reads `next` before scheduling. The pre-repair behaviours are kept as `_refuted` theorems with "
             "witnesses. Tie: match lemma on the regenerated expression ASTs, differential run of waiter_insert/waiter_remove_less_than against the "
-            "extracted model, and deterministic virtual-time scenarios (timerfd replaced by an eventfd the harness advances) on the real runtime.",
+            "extracted model, and deterministic virtual-time scenarios (timerfd replaced by an eventfd the harness advances) on the real runtime; a whole-runtime "
+            "layer (T2 machine with virtual time: sleep-heavy programs, the first blocking call of the main fiber a sleep) judges 'resumed exactly "
+            "once, never before the suspension completed' under stealing.",
             "Partial: kernel timerfd/epoll behaviour and the relation of ticks to real time are outside the model; when a woken sleeper actually runs is "
             "C01/C10. Trusts: Coq kernel, tools/gen/gen_sleep.py, extraction + driver, rt/h_sleep.c.",
             "DESIGN.md 6 C09, 12.3"),
@@ -112,7 +119,8 @@ CLAIMED = {
             "composition over any switch sequence among any set of contexts with disjoint stacks, entry into a fresh context with the argument in rdi "
             "and SysV stack alignment, exact set of registers written vs. declared) are re-proved against what the source says on every run. The compiled "
             "fiber_context_swap/init are run differentially (register files planted by an assembly trampoline, chains of 2-5 contexts, three stack "
-            "strategies, malloc/mmap/splitstack balance per create/destroy) and compared with the extracted interpreter.",
+            "strategies, malloc/mmap/splitstack balance per create/destroy) and compared with the extracted interpreter. That the RUNTIME only swaps "
+            "into contexts whose saving swap has completed is judged on the whole runtime (T2 layer: every switch target is a saved context).",
             "Partial: ucontext back-end and split-stack internals only through the differential oracle; i386 not covered; stack released exactly once is "
             "checked by allocation accounting, not proved; the undeclared clobbers (rax, rcx, rdi) are sound only because the asm ends an out-of-line "
             "function (assumption). Trusts: Coq kernel, tools/gen/gen_ctx.py (aborts on unrecognised instructions), the 9-instruction ISA semantics "
@@ -125,8 +133,8 @@ CLAIMED = {
             "pushed values in tail-CAS order, the pop whose head CAS succeeds returns the oldest value, NULL only when empty or the oldest push is "
             "between its tail CAS and its link write, no field access touches a reclaimed node, the head CAS cannot succeed on a recycled head. "
             "Tied to /repo on every run by per-access trace comparison of mpmc_fifo.h + hazard_pointer.c with the extracted model.",
-            "Trusts: Coq kernel; extraction + driver; rt/rt.c + gcc TSan instrumentation; SC interleaving (store_load_barrier is a no-op under it; the "
-            "fence's necessity on TSO is not modelled); qsort = any sorted permutation (Section hypothesis); -O0 build.",
+            "Trusts: Coq kernel; extraction + driver; rt/rt.c + gcc TSan instrumentation; SC interleaving for the lock-step (store_load_barrier is invisible to it: the "
+            "hazard-pointer layer incl. its x86-TSO theorem (HazardTSO.v) and store-buffer runs of the real queue are discharged on every run); qsort = any sorted permutation (Section hypothesis); -O0 build.",
             "DESIGN.md 6 C13, Appendix B"),
     "C14": ("Coq invariants over an access-granularity model of hazard_pointer.c incl. scan and binary search; lock-step trace correspondence + "
             "probe-by-probe differential test of binary_search",
@@ -155,8 +163,11 @@ CLAIMED = {
             "the extracted machine (a rejected event is a correspondence failure) and a direct C01/C02 monitor judges the same runs.",
             "Trace inclusion is checked on the explored runs (seeded random programs x kernel-thread schedules + corpus), not proved. Abstractions "
             "(all over-approximate what wakers may do): one bag for all run queues; wait objects as availability of entries (P1 at the SAVING mark, "
-            "P2/P3 at the start of the successor's maintenance); an entry is obtained by one waker (C13/C15/C03/C18). fd and sleep waits are not "
-            "exercised by the T2 programs. Trusts: Coq kernel, extraction + driver, rt/rt.c + rt/t2.c, the label decoder in C01.py, the /repo hooks.",
+            "P2/P3 at the start of the successor's maintenance); an entry is obtained by one waker (C13/C15/C03/C18). The T2 programs include "
+            "sleeps (virtual time: the timerfd is an eventfd advanced per idle poll), descriptor waits woken by close, channels, joins and detaches; "
+            "the monitor also requires a run queue to be pushed/popped only by its owner and a finished fiber to be reclaimed by its successor's "
+            "maintenance; a source lint (tools/lint/stale_manager.py) is an obligation: no pointer to the calling kernel thread's manager is used "
+            "across a call that may migrate the fiber. Trusts: Coq kernel, extraction + driver, rt/rt.c + rt/t2.c, the label decoder in C01.py, the /repo hooks.",
             "DESIGN.md 6 C01, 12.1, Appendix A"),
     "C03": ("Coq invariant + ghost ownership machine (with erasure theorem) over the T1K stack-machine model of fiber_mutex.c and fiber_manager.c's "
             "wait/wake code; lock-step trace correspondence on the T1 machine",
@@ -167,7 +178,9 @@ CLAIMED = {
             "pop on; announced waiter and no owner implies an unlocker in its pop loop; at quiescence nobody sleeps on a free mutex. Tied to /repo on "
             "every run by per-access trace comparison of the instrumented fiber_mutex.c + fiber_manager.c + fiber.c with the extracted model.",
             "Trusts: Coq kernel; extraction + driver; rt/rt.c, rt/t1.c (context switch, run queues, event layer replaced: given C01 and C02); SC "
-            "interleaving; -O0 build; programs unlock only what they hold.",
+            "interleaving; -O0 build; programs unlock only what they hold. Counter states beyond what a harness can populate (32767..65537 and 2^31-2 "
+            "announced waiters) are injected as states (reachable by mutex_counter_inv) for the non-blocking operations only (rt/h_init.c), which also "
+            "checks fiber_mutex_init on dirty memory.",
             "DESIGN.md 6 C03, 12.1"),
     "C05": ("Coq invariants over per-thread phases of the T1K model with client Cond.v (user mutex, internal mutex, waiter count, waiter list) + ghost "
             "counters with erasure; lock-step trace correspondence on the T1 machine",
@@ -202,7 +215,9 @@ CLAIMED = {
             "The residual races of the join protocol are machine-checked refutations with witnesses that replay on the real code and are listed as "
             "known findings F-C04b (operation overlapping the release touches the freed fiber), F-C04c (second join takes the sleeping joiner), F-C04d "
             "(join overwrites DETACHED), F-C04e (detach and finishing target both consume join_info). F-C04a was repaired (4ff1f32). Tied to /repo by "
-            "per-access lock-step of fiber.c + fiber_manager.c.",
+            "per-access lock-step of fiber.c + fiber_manager.c (T1 machine; stack and queue-node release observed as monitor-only events) and by a "
+            "whole-runtime reclaim layer (T2 machine: join/detach-heavy programs; destroy events, quarantined control blocks, the successor's "
+            "maintenance must reclaim a finished predecessor, join results) plus the stale-manager source lint.",
             "Partial: the positive statement 'nothing touches the fiber after reclaim when handles are used by one client at a time' is only proved in a "
             "weaker form (after the free the target never runs again and no waker is mid-sequence on it) and otherwise covered by the monitor. Trusts: "
             "Coq kernel; extraction + driver; rt/rt.c, rt/t1.c (given C01/C02); free() of the target replaced by a quarantine event; SC; -O0.",
@@ -229,15 +244,19 @@ CLAIMED = {
             "DESIGN.md 6 C12, 12.3"),
     "C10": ("Coq invariants (conservation + bypass potential with a ghost bypass counter, erasure proved) over an access-granularity model of "
             "fiber_scheduler_wsd.c with atomic deques; lock-step trace correspondence",
-            "Machine-checked over every reachable state of one kernel thread's scheduler (any program of spawn/yield/block/wake/idle/balance, any "
-            "length): every existing fiber is in exactly one place and at most N exist; a READY queued fiber is bypassed at most 2(N-1) times before "
-            "`next` hands it out, independently of how long the others keep yielding (so a yield-polling loop cannot starve the fiber it waits for); "
+            "Machine-checked over every reachable state of the scheduler model. One kernel thread (any program of spawn/yield/block/wake/idle/balance/"
+            "park-saving/flip, any length): every existing fiber is in exactly one place and at most N exist; a READY queued fiber is bypassed at most "
+            "2(N-1) times before `next` hands it out, independently of how long the others keep yielding (so a yield-polling loop cannot starve the "
+            "fiber it waits for). N kernel threads, every interleaving (coq/SchedNProofs.v): conservation (each runnable fiber in exactly one place "
+            "of one thread; steals and load-balancing preserve it), only the owner adds to its deques, a stolen fiber is the thief's next hand-out or "
+            "at the head of its queue, and the per-thread bypass bound 2(n_t-1) + (number of fibers the thread itself stole and pushed in front "
+            "meanwhile); the bound without that allowance is machine-checked FALSE with a witness replayed on the real code (the harness lets a "
+            "fiber call load_balance at any time; the runtime only does so after an empty `next`, where the allowance is 0); "
             "the originally pinned code (schedule() pushing on the deque being drained) is kept as a refuted regression incl. the unbounded (for every "
             "k) starvation. Tied to /repo by per-access lock-step of fiber_scheduler_wsd.c + work_stealing_deque.c (1-4 kernel threads) and a "
             "bypass/conservation monitor on the real scheduler code.",
-            "The fairness theorem is for ONE kernel thread (the property's core case); with N threads stealing only removes entries ahead of a waiting "
-            "fiber or moves it to a less loaded thread (argued in DESIGN.md, not proved); multi-thread runs are covered by lock-step and the conservation "
-            "monitor. Trusts: Coq kernel; extraction + driver; rt/rt.c; deque operations atomic (C02 deque theorems); rt/h_sched.c reproduces the "
+            "Queue lengths beyond the 32 fibers of the model (thresholds and caps a change may introduce) are exercised monitor-only (BIG cases: up to "
+            "1030 ready fibers, run queues started with 4-entry arrays). Trusts: Coq kernel; extraction + driver; rt/rt.c; deque operations atomic (C02 deque theorems); rt/h_sched.c reproduces the "
             "scheduler-visible actions of fiber_manager_yield/switch_to/do_maintenance by hand (the manager itself is checked on T1/T2).",
             "DESIGN.md 6 C10, 12.3"),
 }
